@@ -353,7 +353,7 @@ def fstr(parts):
     for p in parts:
         if isinstance(p, tuple):
             v, conv, spec = p
-            if isinstance(v, SymStr) and spec == '':
+            if (isinstance(v, SymStr) or hasattr(v, 'chars')) and spec == '':
                 pieces.append(v)
             elif isinstance(v, SymInt) and spec == '':
                 # names built from counts etc. must be concrete: fork
@@ -397,6 +397,9 @@ def strmeth(const, name, args, kwargs):
     if name == 'join' and len(args) == 1:
         xs = list(args[0])
         if any(_isp(x) for x in xs):
+            if any(hasattr(x, 'chars') for x in xs):
+                from . import bstr
+                xs = [bstr.BStr.of(x) if isinstance(x, str) else x for x in xs]
             acc = None
             for x in xs:
                 if acc is None:
